@@ -205,7 +205,41 @@ def materialise(wd, d):
     ped = None
     if wd.get("ped"):
         ped = W.write_ped(os.path.join(d, "fam.ped"), wd["ped"])
-    return {"vcf": vcf, "bam": bam, "bam2": bam2, "ref": os.path.join(d, "ref.fa"), "ped": ped, "seqs": seqs, "names": names}
+    pvcf = None
+    if wd.get("phase_vcf"):
+        # a PHASED VCF as an additional phase input ("preferred" pseudo reads): blocks of 2-4 consecutive sites, each
+        # carrying the TRUE haplotypes of the sample (either orientation), so it is an error-free source as well
+        rng3 = random.Random(wd["seed"] + 23)
+        precs = []
+        for ci, (ref, vs) in enumerate(seqs):
+            blocks, i = [], 0
+            while i < len(vs):
+                ln = rng3.randint(2, 4)
+                blocks.append(list(range(i, min(len(vs), i + ln))))
+                i += ln
+            per_s = {}
+            for s in samples:
+                per_s[s] = {}
+                for blk in blocks:
+                    if len(blk) < 2 or rng3.random() < 0.3:
+                        continue
+                    fl = rng3.randint(0, 1)
+                    for si in blk:
+                        a, b = wd["truth"][s][ci][si]
+                        if a != b:
+                            per_s[s][si] = (f"{b}|{a}" if fl else f"{a}|{b}", vs[blk[0]].pos + 1)
+            for si, v in enumerate(vs):
+                calls = []
+                for s in samples:
+                    if si in per_s[s]:
+                        calls.append([per_s[s][si][0], str(per_s[s][si][1])])
+                    else:
+                        a, b = wd["truth"][s][ci][si]
+                        calls.append([f"{min(a, b)}/{max(a, b)}", "."])
+                precs.append({"chrom": names[ci], "pos": v.pos + 1, "ref": v.ref, "alt": v.alt, "fmt": ["GT", "PS"], "calls": calls})
+        pvcf = W.write_vcf(os.path.join(d, "phaseinput.vcf"), samples, [(n_, len(s[0])) for n_, s in zip(names, seqs)], precs,
+                           fmt_keys=("GT", "PS"))
+    return {"vcf": vcf, "bam": bam, "bam2": bam2, "pvcf": pvcf, "ref": os.path.join(d, "ref.fa"), "ped": ped, "seqs": seqs, "names": names}
 
 
 def run_phase(wd, d, paths, vcf_in=None, out_name="out.vcf", phase_inputs=None, tag=None):
@@ -234,7 +268,8 @@ def run_phase(wd, d, paths, vcf_in=None, out_name="out.vcf", phase_inputs=None, 
     exc = ""
     try:
         run_whatshap(
-            phase_input_files=phase_inputs or ([paths["bam"]] + ([paths["bam2"]] if paths.get("bam2") else [])),
+            phase_input_files=phase_inputs or ([paths["bam"]] + ([paths["bam2"]] if paths.get("bam2") else [])
+                                               + ([paths["pvcf"]] if paths.get("pvcf") else [])),
             variant_file=vcf_in or paths["vcf"],
             reference=paths["ref"] if o.get("reference", True) else False,
             output=os.path.join(d, out_name),
